@@ -68,3 +68,23 @@ Theorem C02_intact_archive_reads_back :
     br_read_all hok hdrdec o (enc_payload roots bs) = Ok (1, roots, mkscan bs EEof).
 Proof. exact br_read_all_v1. Qed.
 Print Assumptions C02_intact_archive_reads_back.
+
+(* (b) for CARv2 containers (pragma, 40-byte header, any data padding, anything after the payload):
+   a cut inside the payload window that is not on a section boundary is a failed open or the complete
+   blocks in front of the cut followed by an error that is not a clean EOF.  The only assumption on
+   the CBOR oracle is that it decodes the 10-byte pragma body as {version: 2}. *)
+From GoCarProofs Require Import ScanTruncV2.
+Theorem C02_truncation_is_never_a_clean_eof_v2 :
+  forall hok hdrdec, hdrdec pragma_body = Some ([], 2) ->
+  forall o roots bs dpad ioff tail k,
+    archive_ok hok hdrdec o roots bs -> 10 <= o_maxh o ->
+    51 + dpad < two63 -> ioff < two63 -> 0 < blen (enc_payload roots bs) < two63 ->
+    51 + dpad <= k -> k < 51 + dpad + blen (enc_payload roots bs) ->
+    ~ (exists j, (j <= length bs)%nat /\
+         k = 51 + dpad + blen (ld (enc_header (Some roots) 1)) + blen (enc_sections (firstn j bs))) ->
+    (exists e, br_read_all hok hdrdec o (take k (container dpad ioff (enc_payload roots bs) tail)) = Err e)
+    \/ (exists j e, (j < length bs)%nat /\ e <> EEof /\
+          br_read_all hok hdrdec o (take k (container dpad ioff (enc_payload roots bs) tail))
+          = Ok (2, roots, mkscan (firstn j bs) e)).
+Proof. exact br_read_all_trunc_v2. Qed.
+Print Assumptions C02_truncation_is_never_a_clean_eof_v2.
